@@ -82,6 +82,48 @@ def run_variant(plan, inst_order, ops_spec, perm_rng=None, split=False, res=None
     return trace, prepared_after, sim
 
 
+def reg_rule_variant(plan, inst_order, ops_spec, res, summary):
+    """implementation-only oracle, independent of the model: at every single edge each plain register must end up with exactly the
+    value the register rule yields from the wire values that held BEFORE the edge (reset value if r == 1, else d if there is no
+    enable or e != 0, else unchanged; unchanged if its clock driver's enable was 0) -- no prepared update lost, altered or late"""
+    import py4hw
+    sysobj, ins, W, leaves = G.build(plan, inst_order=inst_order)
+    sim = sysobj.getSimulator()
+    regs = [l for l in sysobj.allLeaves() if type(l).__name__ == 'Reg']
+    if not regs:
+        return
+    names = {w.name: w for w in D.all_wires(sysobj)}
+    edge = 0
+    for o in ops_spec:
+        if o[0] == 'poke':
+            names[o[1]].put(o[2])
+            continue
+        for _ in range(o[1]):
+            sim.propagateAll()          # what clk() itself does first: the pre-edge values
+            pre = []
+            for lf in regs:
+                drv = py4hw.getObjectClockDriver(lf)
+                en = 1 if (drv is None or drv.enable is None) else drv.enable.get()
+                pre.append((lf.d.get(), None if lf.e is None else lf.e.get(), None if lf.r is None else lf.r.get(), lf.q.get(), en))
+            sim.clk(1)
+            edge += 1
+            for lf, (d, e, r_, q0, en) in zip(regs, pre):
+                mask = (1 << lf.q.getWidth()) - 1
+                if en == 0:
+                    want = q0
+                elif r_ is not None and r_ == 1:
+                    want = lf.reset_value & mask
+                elif e is None or e != 0:
+                    want = d & mask
+                else:
+                    want = q0
+                if lf.q.get() != want:
+                    res.fail('a register does not hold the value the register rule yields from the pre-edge wires: a prepared update was lost, altered or delayed',
+                             dict(summary, register=lf.getFullPath(), edge=edge, pre_edge=dict(d=d, e=e, r=r_, q=q0, driver_enable=en),
+                                  reset_value=lf.reset_value, observed_q=lf.q.get(), expected_q=want))
+                    return
+
+
 def main(res, tier, rng, replay):
     ok, metas, errors, changed = regenerate()
     for e in errors:
@@ -135,6 +177,10 @@ def main(res, tier, rng, replay):
             diff = {k: (tA[-1][k], tC[-1][k]) for k in tA[-1] if tA[-1][k] != tC[-1][k]}
             res.fail('clk(n) differs from n single-cycle clk(1) calls', dict(summary, differing_wires=diff,
                                                                              total_clks=(simA.total_clks, simC.total_clks)))
+        try:
+            reg_rule_variant(plan, order, ops_spec, res, summary)
+        except Exception as e:
+            res.hist('simulation_errors', f'regrule:{type(e).__name__}:{str(e)[:40]}')
         if any(pA) or any(pC):
             res.fail('Wire.prepared not empty after clk(): a prepared update was carried over', dict(summary, prepared=pA))
         if len(nb.jobs) >= 150:
